@@ -44,6 +44,7 @@ func (m *Map[K, V]) LoadOrStore(key K, value V) (actual V, loaded bool) {
 	if ok {
 		return v, true
 	}
+	verifYield("Map.LoadOrStore.between")
 	m.mutex.Lock()
 	m.data[key] = value
 	m.mutex.Unlock()
@@ -108,7 +109,9 @@ func (m *Map[K, V]) Range(f func(key K, value V) bool) {
 	defer m.mutex.RUnlock()
 	for key, value := range m.data {
 		m.mutex.RUnlock()
+		verifYield("Map.Range.unlocked")
 		ok := f(key, value)
+		verifYield("Map.Range.relock")
 		m.mutex.RLock()
 		if !ok {
 			return
